@@ -42,6 +42,7 @@ type Backed struct {
 	Path []PathEl // path to the array inside the cell
 	Len  string
 	Cap  string
+	NilT string // nil flag of the slice this was materialised from ("" = not nil)
 }
 
 type FnVal struct {
@@ -208,6 +209,7 @@ type Exec struct {
 	warnings []string
 	prune bool
 	nfeas int
+	nextCalls int
 }
 
 func (ex *Exec) newCell(t types.Type, name string) *Cell {
@@ -244,7 +246,11 @@ func (ex *Exec) freshVal(t types.Type, name string, st *State) Val {
 func (ex *Exec) pure(v Val, t types.Type, st *State) string {
 	if v.Bk != nil {
 		arr := ex.readPath(st.cells[v.Bk.Cell], v.Bk.Cell.typ, v.Bk.Path)
-		return fmt.Sprintf("(mkSlice %s %s false)", v.Bk.Len, arr)
+		nilT := "false"
+		if v.Bk.NilT != "" {
+			nilT = v.Bk.NilT
+		}
+		return fmt.Sprintf("(mkSlice %s %s %s)", v.Bk.Len, arr, nilT)
 	}
 	if v.T != "" {
 		return v.T
@@ -827,6 +833,11 @@ func (ex *Exec) ghostSort(name string) string {
 func (ex *Exec) calleeModifies(com *ssa.CallCommon) (mods []string, all bool) {
 	if com.IsInvoke() {
 		key := "(" + com.Value.Type().String() + ")." + com.Method.Name()
+		if conc, ok := ex.cs.Impls[com.Value.Type().String()]; ok {
+			if c := ex.cs.Lookup("(" + conc + ")." + com.Method.Name()); c != nil {
+				return c.Modifies, false
+			}
+		}
 		if c := ex.cs.Lookup(key); c != nil {
 			return c.Modifies, false
 		}
@@ -847,6 +858,19 @@ func (ex *Exec) calleeModifies(com *ssa.CallCommon) (mods []string, all bool) {
 			return nil, true
 		}
 		return nil, false
+	}
+	// call through a package-level function variable (sdk.NewInt = math.NewInt ...)
+	if u, ok := com.Value.(*ssa.UnOp); ok {
+		if g, ok := u.X.(*ssa.Global); ok {
+			if fn := ex.prog.globalFuncInit(g); fn != nil {
+				if c := ex.cs.Lookup(fn.String()); c != nil {
+					return c.Modifies, false
+				}
+				if fn.Pkg == nil || !ex.prog.isRepoPkg(fn.Pkg.Pkg.Path()) {
+					return nil, false
+				}
+			}
+		}
 	}
 	return nil, true
 }
@@ -1584,7 +1608,7 @@ func (ex *Exec) indexAddr(fr *Frame, st *State, x *ssa.IndexAddr) {
 		at := types.NewArray(et, 1<<40)
 		c := ex.newCell(at, "mat."+x.X.Name())
 		st.cells[c] = fmt.Sprintf("(sl.arr %s)", base.T)
-		bk := &Backed{Cell: c, Len: fmt.Sprintf("(sl.len %s)", base.T), Cap: fmt.Sprintf("(sl.len %s)", base.T)}
+		bk := &Backed{Cell: c, Len: fmt.Sprintf("(sl.len %s)", base.T), Cap: fmt.Sprintf("(sl.len %s)", base.T), NilT: fmt.Sprintf("(sl.nil %s)", base.T)}
 		if _, isParamOrPhi := fr.regs[x.X]; isParamOrPhi {
 			fr.regs[x.X] = Val{Bk: bk}
 		}
